@@ -1,4 +1,4 @@
-import StoneVerif.Lemmas.FeCompileAnnot
+import StoneVerif.Lemmas.FeCompileRouteAttrs
 import StoneVerif.Props.C02Compile
 /-!
 # C01 for the compile model: accepted = legal
@@ -16,49 +16,59 @@ open StoneVerif.FeCompile
 /-- **Accepted = legal.** The model of the IR generator accepts a set of spec files exactly when the files obey every
 rule: each check of each pass -- made in the order the passes run, against the aliases set and the types populated at
 that moment -- is, taken together with the others, the order-free rule; and the rules leave nothing for a check to
-trip over. -/
-theorem compile_ok_iff_legal (rx : String → Bool) (fs : List File) (hl : nsLexical fs = true) :
-    (∃ api, compile rx fs = .ok api) ↔ Legal rx fs = true :=
-  L.compile_ok_iff_legal_full rx fs hl
+trip over.  `vc` is the test of one route-attribute value against the type of its attribute: the statement holds for
+every such test (`Props/C01Compile.lean` `compile_ok_iff_legal_values` instantiates it with C10's value checker). -/
+theorem compile_ok_iff_legal (rx : String → Bool) (vc : ValCk) (fs : List File) (hl : nsLexical fs = true) :
+    (∃ api, compileFull rx vc fs = .ok api) ↔ LegalFull rx vc fs = true :=
+  L.compileFull_ok_iff_legalFull rx vc fs hl
 
 /-- **Never refused.** A set of spec files that violates no rule is compiled: no pass refuses it -- and none of
 the model's recursion bounds is hit, no impossible state is reached (`outOfFuel`, `fuelAlias`, `fuelAncestors`,
 `fuelImports`, `internal` do not occur on legal input). -/
-theorem legal_accepted (rx : String → Bool) (fs : List File) (hl : nsLexical fs = true) (h : Legal rx fs = true) :
-    ∃ api, compile rx fs = .ok api :=
-  (compile_ok_iff_legal rx fs hl).mpr h
+theorem legal_accepted (rx : String → Bool) (vc : ValCk) (fs : List File) (hl : nsLexical fs = true) (h : LegalFull rx vc fs = true) :
+    ∃ api, compileFull rx vc fs = .ok api :=
+  (compile_ok_iff_legal rx vc fs hl).mpr h
 
 /-- **Every violation is reported.** A set of spec files that violates a rule -- any rule, anywhere, in any order of
 files and declarations -- is refused. (WHICH error is raised when several rules are violated follows the order of
 the passes; the correspondence suite compares the kinds on single violations.) -/
-theorem violation_refused (rx : String → Bool) (fs : List File) (hl : nsLexical fs = true) (h : Legal rx fs = false) :
-    ∃ e, compile rx fs = .error e := by
-  cases hc : compile rx fs with
+theorem violation_refused (rx : String → Bool) (vc : ValCk) (fs : List File) (hl : nsLexical fs = true) (h : LegalFull rx vc fs = false) :
+    ∃ e, compileFull rx vc fs = .error e := by
+  cases hc : compileFull rx vc fs with
   | error e => exact ⟨e, rfl⟩
   | ok api =>
-    have := (compile_ok_iff_legal rx fs hl).mp ⟨api, hc⟩
+    have := (compile_ok_iff_legal rx vc fs hl).mp ⟨api, hc⟩
     rw [h] at this
     cases this
 
 /-- **Whatever is refused violates a rule** (`compile_error_sound`): an error of any kind -- the kinds of the
 `InvalidSpec` sites, and the model's own `crash` / fuel / `internal` answers alike -- is only ever produced on input
 that is not legal. -/
-theorem compile_error_sound (rx : String → Bool) (fs : List File) (hl : nsLexical fs = true) (e : Err)
-    (h : compile rx fs = .error e) : Legal rx fs = false := by
-  cases hL : Legal rx fs with
+theorem compile_error_sound (rx : String → Bool) (vc : ValCk) (fs : List File) (hl : nsLexical fs = true) (e : Err)
+    (h : compileFull rx vc fs = .error e) : LegalFull rx vc fs = false := by
+  cases hL : LegalFull rx vc fs with
   | false => rfl
   | true =>
-    obtain ⟨api, hapi⟩ := (compile_ok_iff_legal rx fs hl).mpr hL
+    obtain ⟨api, hapi⟩ := (compile_ok_iff_legal rx vc fs hl).mpr hL
     rw [h] at hapi
     cases hapi
 
 /-- **Acceptance does not depend on the arrangement**: `Legal` mentions the files only through the declarations of
 each namespace, the set of namespaces and C01's name rules; stated for two inputs that are both lexical and have the
 same verdict of `Legal` this is `compile_ok_iff_legal` twice. -/
-theorem acceptance_by_rules (rx : String → Bool) (fs fs' : List File) (hl : nsLexical fs = true)
-    (hl' : nsLexical fs' = true) (h : Legal rx fs = Legal rx fs') :
-    (∃ api, compile rx fs = .ok api) ↔ (∃ api, compile rx fs' = .ok api) := by
-  rw [compile_ok_iff_legal rx fs hl, compile_ok_iff_legal rx fs' hl', h]
+theorem acceptance_by_rules (rx : String → Bool) (vc : ValCk) (fs fs' : List File) (hl : nsLexical fs = true)
+    (hl' : nsLexical fs' = true) (h : LegalFull rx vc fs = LegalFull rx vc fs') :
+    (∃ api, compileFull rx vc fs = .ok api) ↔ (∃ api, compileFull rx vc fs' = .ok api) := by
+  rw [compile_ok_iff_legal rx vc fs hl, compile_ok_iff_legal rx vc fs' hl', h]
+
+/-- the same without the route-attribute stage: types, patches and applied annotations -/
+theorem compile_ok_iff_legal_types (rx : String → Bool) (fs : List File) (hl : nsLexical fs = true) :
+    (∃ api, compile rx fs = .ok api) ↔ Legal rx fs = true :=
+  L.compile_ok_iff_legal_full rx fs hl
+
+/-- what `compileFull` accepts, `compile` accepts with the same result: C02's theorems about the result apply -/
+theorem compileFull_compile {rx vc fs api} (h : compileFull rx vc fs = .ok api) : compile rx fs = .ok api :=
+  L.compileFull_compile h
 
 /-- **Names and imports, both ways.** The first two passes (registration with the canonical-name check; imports)
 accept exactly the inputs whose names obey `FeNames.NoClash` and whose imports are not reflexive, name existing
@@ -176,6 +186,38 @@ example : errOf (compile rx1 (one [.route { name := "r", version := 1, arg := re
                                              error := some (ref "Void"), deprecated := some (some ("s", 1)) }])) = some .undefinedRoute ∧
     Legal rx1 (one [.route { name := "r", version := 1, arg := ref "Void", result := ref "Void",
                              error := some (ref "Void"), deprecated := some (some ("s", 1)) }]) = false := by decide +kernel
+
+/-! route attributes (every value passes: `vcT`) -/
+def vcT : ValCk := fun _ _ _ _ _ _ => true
+def cfg (fields : List AField) (more : List Decl := []) : File :=
+  { ns := "stone_cfg", decls := .type { name := "Route", kind := .struct, fields := fields } :: more }
+def rt (attrs : List (String × AVal)) : Decl :=
+  .route { name := "r", version := 1, arg := ref "Void", result := ref "Void", error := some (ref "Void"), attrs := attrs }
+def styleHost : List AField :=
+  [{ name := "style", ty := some (ref "String") }, { name := "host", ty := some (ref "String" true) },
+   { name := "auth", ty := some (ref "String"), hasDefault := true }]
+
+example : LegalFull rx1 vcT (cfg styleHost :: one [rt [("style", .str "rpc")]]) = true ∧
+    (compileFull rx1 vcT (cfg styleHost :: one [rt [("style", .str "rpc"), ("host", .null)]])).toOption.isSome = true := by
+  decide +kernel
+
+example : errOf (compileFull rx1 vcT (cfg styleHost :: one [rt []])) = some .attrMissing ∧
+    LegalFull rx1 vcT (cfg styleHost :: one [rt []]) = false := by decide +kernel
+
+example : errOf (compileFull rx1 vcT (cfg styleHost :: one [rt [("style", .str "rpc"), ("zzz", .int 1)]])) = some .attrUnknown ∧
+    errOf (compileFull rx1 vcT (one [rt [("style", .str "rpc")]])) = some .attrUnknown ∧
+    LegalFull rx1 vcT (one [rt [("style", .str "rpc")]]) = false := by decide +kernel
+
+example : errOf (compileFull rx1 vcT [cfg styleHost [rt []]]) = some .cfgRoutes ∧
+    errOf (compileFull rx1 vcT [cfg [] [.type { name := "Other", kind := .struct }]]) = some .cfgNotRoute ∧
+    LegalFull rx1 vcT [cfg [] [.type { name := "Other", kind := .struct }]] = false := by decide +kernel
+
+example : errOf (compileFull rx1 vcT
+      (cfg [{ name := "l", ty := some (.app1 (href "List" true) (ref "String")) }] :: one [rt [("l", .str "a")]]))
+      = some .attrNotSettable ∧
+    (compileFull rx1 vcT
+      (cfg [{ name := "l", ty := some (.app1 (href "List" true) (ref "String")) }] :: one [rt [("l", .null)]])).toOption.isSome
+      = true := by decide +kernel
 
 end Examples
 
